@@ -49,6 +49,35 @@ type jCase struct {
 	N        [4]uint8     `json:"n"`
 	InUTC    bool         `json:"in_utc,omitempty"` // DateTime: the value is held in UTC although the process zone is another one
 	Later    bool         `json:"later,omitempty"`  // DateTime: for a civil time that occurs twice take the later occurrence
+	// Date values (also inside cards, profiles, tasks): 0 = made by ToDate (midnight in the process zone); otherwise the public
+	// conversion types.Date(t) of a time of day (Clock) in ANOTHER location (1 UTC, 2 UTC+14, 3 UTC-12, 4 Pacific/Kiritimati,
+	// 5 America/Anchorage, 6 the process zone itself): the date is the calendar day of t where t is (Date.Equals compares that)
+	Carrier int    `json:"date_carrier,omitempty"`
+	Clock   [3]int `json:"date_clock,omitempty"`
+}
+
+func (c jCase) carried(y, m, d int) types.Date {
+	if c.Carrier == 0 {
+		return types.ToDate(y, time.Month(m), d)
+	}
+	loc := time.Local
+	switch c.Carrier {
+	case 1:
+		loc = time.UTC
+	case 2:
+		loc = time.FixedZone("", 14*3600)
+	case 3:
+		loc = time.FixedZone("X", -12*3600)
+	case 4:
+		loc = zones.Loc("Pacific/Kiritimati")
+	case 5:
+		loc = zones.Loc("America/Anchorage")
+	}
+	t := time.Date(y, time.Month(m), d, c.Clock[0], c.Clock[1], c.Clock[2], 0, loc)
+	if yy, mm, dd := t.Date(); yy != y || int(mm) != m || dd != d {
+		return types.ToDate(y, time.Month(m), d) // (the time of day does not exist on that day there)
+	}
+	return types.Date(t)
 }
 
 func try(f func()) (p any) {
@@ -100,13 +129,13 @@ func (c jCase) date1() types.Date {
 	if c.A.Y == 0 {
 		return types.Date{}
 	}
-	return types.ToDate(c.A.Y, time.Month(c.A.M), c.A.D)
+	return c.carried(c.A.Y, c.A.M, c.A.D)
 }
 func (c jCase) date2() types.Date {
 	if c.B.Y == 0 {
 		return types.Date{}
 	}
-	return types.ToDate(c.B.Y, time.Month(c.B.M), c.B.D)
+	return c.carried(c.B.Y, c.B.M, c.B.D)
 }
 func civilText(y, m, d int) string {
 	if y == 0 {
@@ -572,6 +601,9 @@ func checkInner(c jCase) *rp.Fail {
 	if c.Zone != "" && c.Zone != "UTC" {
 		ev.Class("zone/non-utc", 1)
 	}
+	if c.Carrier != 0 && !c.Reject {
+		ev.Class("date/wraps-a-time-of-day-in-another-location", 1)
+	}
 	if c.Type == "DateTime" && !c.Reject && c.A.Y != 0 {
 		zones.With(zones.Loc(orUTC(c.Zone)), func() {
 			if _, twice := otherOccurrence(time.Date(c.A.Y, time.Month(c.A.M), c.A.D, c.A.H, c.A.Mi, c.A.S, 0, time.Local)); twice {
@@ -591,11 +623,14 @@ func checkInner(c jCase) *rp.Fail {
 var roundtripTypes = []string{"Date", "DateTime", "HHmm", "SystemTime", "PIN", "Card", "TimeProfile", "Weekdays", "Segments", "Task", "TaskType", "ControlState", "Version", "MacAddress", "CardFormat",
 	"BindAddr", "BroadcastAddr", "ListenAddr", "ControllerAddr"}
 
+// fixed zones as a host without a tz database entry has them: no abbreviation at all, or a numeric one
+var fixedZones = []string{"Fixed//19800", "Fixed//0", "Fixed/+0530/19800", "Fixed/-03/-10800", "Fixed//-34200"}
+
 func zoneList() []string {
 	if ev.Thorough() {
-		return append(zones.Names(), zones.Synthetic)
+		return append(append(append([]string(nil), zones.Names()...), zones.Synthetic), fixedZones...)
 	}
-	return append(zones.Spread(40), zones.Synthetic)
+	return append(append(zones.Spread(40), zones.Synthetic), fixedZones...)
 }
 
 func existingDay(t *rapid.T, loc *time.Location, label string) spec.Civil {
@@ -626,6 +661,13 @@ func genCase(t *rapid.T) jCase {
 	}
 	c.A = spec.CivilDT{Y: a.Y, M: a.M, D: a.D}
 	c.B = existingDay(t, loc, "b")
+	switch c.Type {
+	case "Date", "Card", "TimeProfile", "Task":
+		if rapid.IntRange(0, 2).Draw(t, "carried") == 0 {
+			c.Carrier = rapid.IntRange(1, 6).Draw(t, "carrier")
+			c.Clock = [3]int{rapid.SampledFrom([]int{0, 0, 23, 12, 1, 11, 13, 22}).Draw(t, "carrier.h"), rapid.SampledFrom([]int{0, 59, 30}).Draw(t, "carrier.mi"), rapid.SampledFrom([]int{0, 59}).Draw(t, "carrier.s")}
+		}
+	}
 	switch c.Type {
 	case "Date":
 		if rapid.IntRange(0, 9).Draw(t, "zero") == 0 {
